@@ -141,12 +141,78 @@ def f11_gitignore_fifo(xcp, d):
             bad.append("%s: still running after 10 s (blocked opening the FIFO)" % drv)
     return bad
 
+def f12_dotdot_source(xcp, d):
+    """C02: a source spelled `dir/..` must not be written next to the destination"""
+    bad = []
+    for drv in ("parfile", "parblock"):
+        w = os.path.join(d, drv); os.makedirs(os.path.join(w, "src", "sub")); os.makedirs(os.path.join(w, "work", "out"))
+        open(os.path.join(w, "src", "f"), "w").write("f\n"); open(os.path.join(w, "src", "sub", "g"), "w").write("g\n")
+        rc, err = run(xcp, ["-r", "--driver", drv, "src/sub/..", "work/out"], w)
+        outside = sorted(x for x in os.listdir(os.path.join(w, "work")) if x != "out")
+        if outside or (rc == 0 and not os.path.exists(os.path.join(w, "work", "out", "sub", "g"))):
+            bad.append("%s: exit %d, entries created outside the destination: %s" % (drv, rc, outside))
+    return bad
+
+def f13_root_symlink(xcp, d):
+    """C02/C08: `xcp -r link out` (link -> directory, no -L) copies the link and nothing beneath it"""
+    bad = []
+    for drv in ("parfile", "parblock"):
+        w = os.path.join(d, drv); os.makedirs(os.path.join(w, "src", "sub")); os.makedirs(os.path.join(w, "out", "sub"))
+        open(os.path.join(w, "src", "sub", "a"), "w").write("a\n"); os.symlink("sub", os.path.join(w, "src", "ld"))
+        rc, err = run(xcp, ["-r", "--workers", "1", "--driver", drv, "src/ld", "out"], w)
+        if os.path.exists(os.path.join(w, "out", "sub", "a")) or not os.path.islink(os.path.join(w, "out", "ld")):
+            bad.append("%s: exit %d; out/sub/a written through the new link: %s; out/ld is a link: %s" % (
+                drv, rc, os.path.exists(os.path.join(w, "out", "sub", "a")), os.path.islink(os.path.join(w, "out", "ld"))))
+    return bad
+
+def _gi_tree(w, gitignore):
+    os.makedirs(os.path.join(w, "src", "real"))
+    open(os.path.join(w, "src", ".gitignore"), "wb").write(gitignore)
+    for n in ("a", "b", "secret.key"):
+        open(os.path.join(w, "src", n), "w").write(n + "\n")
+    open(os.path.join(w, "src", "real", "x"), "w").write("x\n")
+    os.symlink("real", os.path.join(w, "src", "cache"))
+
+def f14_gitignore_root(xcp, d):
+    """C17: `*` + `!a` must not make the whole copy vanish"""
+    bad = []
+    for drv in ("parfile", "parblock"):
+        w = os.path.join(d, drv); _gi_tree(w, b"*\n!a\n")
+        rc, err = run(xcp, ["-r", "--gitignore", "--driver", drv, "src", "out"], w)
+        if rc == 0 and not os.path.exists(os.path.join(w, "out", "a")):
+            bad.append("%s: exit 0 and out/a missing (root entry filtered)" % drv)
+    return bad
+
+def f15_gitignore_dirlink(xcp, d):
+    """C17: `cache/` excludes directories named cache, not a symlink named cache"""
+    bad = []
+    for drv in ("parfile", "parblock"):
+        w = os.path.join(d, drv); _gi_tree(w, b"cache/\n")
+        rc, err = run(xcp, ["-r", "--gitignore", "--driver", drv, "src", "out"], w)
+        if rc == 0 and not os.path.islink(os.path.join(w, "out", "cache")):
+            bad.append("%s: exit 0 and the symlink out/cache is missing" % drv)
+    return bad
+
+def f16_gitignore_unreadable(xcp, d):
+    """C04/C17: an undecodable .gitignore line must not silently disable the patterns after it"""
+    bad = []
+    for drv in ("parfile", "parblock"):
+        w = os.path.join(d, drv); _gi_tree(w, b"# caf\xe9\nsecret.key\n")
+        rc, err = run(xcp, ["-r", "--gitignore", "--driver", drv, "src", "out"], w)
+        if rc == 0 and os.path.exists(os.path.join(w, "out", "secret.key")):
+            bad.append("%s: exit 0 and the excluded secret.key was copied" % drv)
+    return bad
+
 ALL = {"new:create-before-identity-check": f1_self_copy, "parfile:symlink-result-discarded": f2_symlink_result,
        "copy_node:dev-not-rdev": f3_device_number, "parblock:short-copy-not-retried": f5_short_copy,
        "walker:deref-does-not-follow-dir-links": f8_deref_dir_link, "finalise:chown-after-chmod": f9_setid_ownership,
        "backup:prefix-match": f4b_prefix, "backup:non-utf8-unrecognised": f4a_non_utf8,
        "worker-special:alias-removed": f10_special_alias,
-       "walker:gitignore-fifo-opened": f11_gitignore_fifo}
+       "walker:gitignore-fifo-opened": f11_gitignore_fifo,
+       "walker:dotdot-source-outside-dest": f12_dotdot_source,
+       "walker:root-symlink-followed": f13_root_symlink,
+       "walker:gitignore-root-filtered": f14_gitignore_root, "walker:gitignore-isdir-follows-links": f15_gitignore_dirlink,
+       "walker:gitignore-error-dropped": f16_gitignore_unreadable}
 
 def main():
     repo = sys.argv[1]
